@@ -290,7 +290,7 @@ def main(argv=None):
         if len(shown) > 12:
             print(f"INCONCLUSIVE: ... and {len(shown) - 12} more distinct reasons")
         return 2
-    print(f"{pid}: holds on everything explored (bounded; see evidence/{pid}.json)")
+    print(f"{pid}: holds on everything explored" + (" apart from the recorded known findings" if known_hits else "") + f" (bounded; see evidence/{pid}.json)")
     return 0
 
 
